@@ -482,6 +482,7 @@ Definition convert (t : ptype) (v : value) : result value :=
   | PInt, VFloat q => Ok (VInt (Z.quot (Qnum q) (Zpos (Qden q))))
   | PFloat, VBool b => Ok (VFloat (if b then 1 else 0))
   | PFloat, VInt z => Ok (VFloat (inject_Z z))
+  | PStr, _ => Ok v            (* an array of strings; scipy refuses it at the very end *)
   | _, _ => Raise Unmodelled
   end.
 
